@@ -329,7 +329,10 @@ class Quantity:
         f = self.unit.to(unit, equivalencies=equivalencies)
         if not is_sym(f) and f == 1:
             return self._v.copy() if isinstance(self._v, symnp.SymArray) else self._v
-        return self._v * f
+        v = self._v
+        if isinstance(v, float):
+            v = Q(repr(v))      # keep unit conversion of float constants exact (no float rounding in the model)
+        return v * f
 
     @property
     def si(self):
@@ -364,6 +367,8 @@ class Quantity:
         return Quantity(self._v ** p, self.unit ** p)
 
     def _same(self, o):
+        if isinstance(o, (int, float)) and not isinstance(o, bool) and o == 0:
+            return o    # astropy lets a bare zero stand for zero of any unit
         o = self._other(o)
         if not o.unit.is_equivalent(self.unit):
             raise UnitConversionError("Can only apply function to quantities with compatible dimensions (%s vs %s)" % (self.unit, o.unit))
